@@ -282,31 +282,61 @@ func (e *Engine) checkBypassPredicate(r *Report, P *ssa.Function) {
 	})
 	okConj := false
 	if len(calls) == 2 {
-		// the return value: phi with a const-false edge from the block of the first call and the second call's value
+		// semantic form of `a() && b()`, whatever the spelling (&&, two guarded `return false`, nested ifs): every way of
+		// returning something that can be true has both calls true — proven by a dominating guard on the call's value, or
+		// because the returned value is that call's value itself
+		okConj = true
+		nTrue := 0
+		provenAt := func(blk *ssa.BasicBlock, v ssa.Value) map[*ssa.Call]bool {
+			out := map[*ssa.Call]bool{}
+			for _, g := range GuardsOfBlock(blk) {
+				cv, pol := g.Cond, g.Pol
+				for {
+					if u, ok := cv.(*ssa.UnOp); ok && u.Op == token.NOT {
+						cv, pol = u.X, !pol
+						continue
+					}
+					break
+				}
+				for _, c := range calls {
+					if cv == ssa.Value(c) && pol {
+						out[c] = true
+					}
+				}
+			}
+			for _, c := range calls {
+				if v == ssa.Value(c) {
+					out[c] = true
+				}
+			}
+			return out
+		}
+		var consider func(blk *ssa.BasicBlock, v ssa.Value, depth int)
+		consider = func(blk *ssa.BasicBlock, v ssa.Value, depth int) {
+			if bv, ok := constBool(v); ok && !bv {
+				return
+			}
+			if ph, ok := v.(*ssa.Phi); ok && depth < 4 {
+				for idx, ed := range ph.Edges {
+					consider(ph.Block().Preds[idx], ed, depth+1)
+				}
+				return
+			}
+			nTrue++
+			pr := provenAt(blk, v)
+			if !(pr[calls[0]] && pr[calls[1]]) {
+				okConj = false
+			}
+		}
 		for _, b := range P.Blocks {
 			ret, ok := b.Instrs[len(b.Instrs)-1].(*ssa.Return)
 			if !ok || len(ret.Results) != 1 {
 				continue
 			}
-			if ph, ok := ret.Results[0].(*ssa.Phi); ok && len(ph.Edges) == 2 {
-				f, v := false, false
-				for _, ed := range ph.Edges {
-					if bv, ok := constBool(ed); ok && !bv {
-						f = true
-					}
-					if ed == ssa.Value(calls[1]) || ed == ssa.Value(calls[0]) {
-						v = true
-					}
-				}
-				// second call guarded by first true
-				g2 := false
-				for _, g := range GuardsOf(calls[1]) {
-					if g.Cond == ssa.Value(calls[0]) && g.Pol {
-						g2 = true
-					}
-				}
-				okConj = f && v && g2
-			}
+			consider(b, ret.Results[0], 0)
+		}
+		if nTrue == 0 {
+			okConj = false
 		}
 	}
 	r.Check(okConj, "R1", k+" conjunction", e.Pos(P.Pos()), "bypass = allExempt(msgs) && gasWithinAllowance(msgs, gas)", "the bypass predicate is no longer the conjunction of the message-type test and the gas-allowance test")
